@@ -1,0 +1,8 @@
+//go:build !verif
+
+package risc
+
+type verifState struct{}
+
+// VerifTick is a no-op unless built with the "verif" tag.
+func (ctx *Context) VerifTick(int) {}
